@@ -94,6 +94,10 @@ def run(ctx):
                 r.ok(rule2, key, '%s is returned before any mutating call on its path' % name, loc='%s:%s' % (b.loc.file, b.stmts(bi)[si][3] if not isinstance(b.stmts(bi)[si][3], dict) else b.stmts(bi)[si][3]['l']))
     r.floor(rule2, 'bad_returns', n, 12)
     delete_result(ctx)
+    # "linked to the given parent with the given reference type": AddNodes / AddReferences end in References::insert_reference,
+    # which must not leave a reference out unless an equal one is there (rule shared with C28)
+    from .C28 import insert_complete
+    insert_complete(ctx)
 
 
 def delete_result(ctx, rule='delete-result'):
